@@ -10,7 +10,10 @@ let geti () = int_of_string (next ())
 let getn () = nat_of_int (geti ())
 let getlist f = let n = geti () in List.init n (fun _ -> f ())
 let q_of num den = { qnum = z_of_int num; qden = pos_of_int den }
-let float_of_q q = float_of_int (int_of_z q.qnum) /. float_of_int (int_of_pos q.qden)
+(* exact rationals are reduced first; numerator and denominator are converted bit by bit (they may exceed 63 bits) *)
+let rec float_of_pos (p : positive) : float = match p with XH -> 1. | XO q -> 2. *. float_of_pos q | XI q -> 2. *. float_of_pos q +. 1.
+let float_of_zz (x : z) : float = match x with Z0 -> 0. | Zpos p -> float_of_pos p | Zneg p -> -. (float_of_pos p)
+let float_of_q q = let q = qred q in float_of_zz q.qnum /. float_of_pos q.qden
 let run_sched alap =
   let upper = getn () in
   let start = z_of_int (geti ()) in let g = z_of_int (geti ()) in
@@ -44,6 +47,36 @@ let run_sched alap =
       | Some (s, e) -> Printf.sprintf "%d:%d" (int_of_nat s) (int_of_nat e) | None -> "-") results in
   let bs = List.sort compare (List.map (fun b -> (int_of_nat b.b_task, int_of_nat b.b_res, int_of_nat b.b_slot)) booked) in
   String.concat " " rs ^ " | " ^ String.concat ";" (List.map (fun (t, r, s) -> Printf.sprintf "%d,%d,%d" t r s) bs)
+(* sub-slot scheduler (Model/SubSlot.v):
+   sd upper G nres [nwork flags.. eff_num eff_den].. ntasks [leaf nleaves leaves.. prio mile effort_num effort_den res
+      ndeps [task onstart gap].. pin(-1 none) lb]..
+   answer: per task "s:e" (seconds) or "-" | ledger entries t,r,slot,seconds *)
+let run_sd () =
+  let upper = geti () in
+  let g = geti () in
+  let res = getlist (fun () ->
+      let w = Array.of_list (getlist (fun () -> geti () <> 0)) in
+      let en = geti () in let ed = geti () in
+      { sr_work = (fun s -> let i = int_of_nat s in i < Array.length w && w.(i)); sr_eff = q_of en ed }) in
+  let tasks = getlist (fun () ->
+      let leaf = geti () <> 0 in let leaves = getlist getn in
+      let prio = z_of_int (geti ()) in let mile = geti () <> 0 in
+      let en = geti () in let ed = geti () in let r = getn () in
+      let deps = getlist (fun () -> let t = getn () in let o = geti () <> 0 in let gp = z_of_int (geti ()) in
+                           { sd_task = t; sd_onstart = o; sd_gap = gp }) in
+      let pin = geti () in let lb = z_of_int (geti ()) in
+      { s_leaf = leaf; s_leaves = leaves; s_prio = prio; s_mile = mile; s_effort = q_of en ed; s_res = r; s_deps = deps;
+        s_pin = (if pin < 0 then None else Some (z_of_int pin)); s_lb = lb }) in
+  let p = { sp_tasks = tasks; sp_res = res; sp_upper = nat_of_int upper; sp_G = z_of_int g } in
+  let (st, results) = sall_results p in
+  let rs = List.map (fun d -> match d with
+      | Some (s, e) -> Printf.sprintf "%d:%d" (int_of_z s) (int_of_z e) | None -> "-") results in
+  let buf = Buffer.create 256 in
+  let keys = List.sort_uniq compare (List.map (fun (r, s) -> (int_of_nat r, int_of_nat s)) st.stouched) in
+  List.iter (fun (r, s) ->
+      let c = st.cells (nat_of_int r) (nat_of_int s) in
+      List.iter (fun (t, x) -> Buffer.add_string buf (Printf.sprintf "%d,%d,%d,%.6f;" (int_of_nat t) r s (float_of_q x))) c.entries) keys;
+  String.concat " " rs ^ " | " ^ Buffer.contents buf
 let run_ledger () =
   let gn = geti () in let gd = geti () in
   let ops = getlist (fun () ->
@@ -61,7 +94,7 @@ let () =
       let line = input_line stdin in
       toks := Array.of_list (List.filter (fun s -> s <> "") (String.split_on_char ' ' line)); pos := 0;
       let f = next () in
-      let out = try (match f with "sched" -> run_sched false | "alap" -> run_sched true | "ledger" -> run_ledger () | _ -> "UNKNOWN") with e -> "ERROR " ^ Printexc.to_string e in
+      let out = try (match f with "sched" -> run_sched false | "alap" -> run_sched true | "sd" -> run_sd () | "ledger" -> run_ledger () | _ -> "UNKNOWN") with e -> "ERROR " ^ Printexc.to_string e in
       print_endline out
     done
   with End_of_file -> ()
